@@ -75,6 +75,11 @@ func (p *C18) Gen(seed uint64, e int, tier string) *scen.Scenario {
 			if d == "/" {
 				d = ""
 			}
+			if len(addedRe) > 0 && r.Chance(1, 4) {
+				// under a directory that may be mapped AND matching a registered expression
+				qs = append(qs, scen.Pick(r, []string{d + "/elsewhere/e.go", "/srv/a.go", "/srv/sub/b.go", "/opt/x/c.go", "/opt/x/y/d.go", d + "/opt/z/f.go"}))
+				continue
+			}
 			switch r.Intn(9) {
 			case 0:
 				qs = append(qs, d+"/a.go")
@@ -108,14 +113,14 @@ func (p *C18) Gen(seed uint64, e int, tier string) *scen.Scenario {
 	saved := 0
 	for k := 0; k < n; k++ {
 		switch c := r.Intn(12); {
-		case c < 5:
+		case c < 4:
 			d := scen.Pick(r, bases[2:])
 			if r.Chance(1, 6) {
 				d += "/" // a directory registered with its trailing slash
 			}
 			sc.Setup = append(sc.Setup, scen.Op{Op: "add_path", Name: d, Msg: scen.Pick(r, repls)})
 			added = append(added, d)
-		case c < 7 && len(added) > 0:
+		case c < 5 && len(added) > 0:
 			sc.Setup = append(sc.Setup, scen.Op{Op: "remove_path", Name: scen.Pick(r, added)})
 		case c < 8:
 			ex := scen.Pick(r, []string{`/opt/[^/]+/`, `^/srv/`, `/elsewhere/`})
